@@ -1520,15 +1520,250 @@ def discipline_note(ctx):
                                      "construction (capacity, CacheNode.key, FreqNode.freq) are counted separately and are harmless"))
 
 
+# ---- source tie: lfucache.py translated to Gallina on every run (harness/translate/lfucache.py) ----------------
+
+SOURCE_TIES = [{
+    "name": "lfucache", "translator": "lfucache", "gen_module": "LfuGen", "equiv": ["LfuGenEquiv"],
+    "needs": ["Lfu.LfuHeapModel", "Lfu.LfuHeapProofs", "Lfu.LfuConcProofs"],
+    "sources": ["deepdiff/lfucache.py", "deepdiff/helper.py"],
+    "fragment": ("CacheNode.__init__ (plain-value form) / free_myself; FreqNode.__init__ / count_caches / remove / pop_head_cache / "
+                 "append_cache_to_tail / insert_after_me / insert_before_me; LFUCache.__init__ / get / set (plain-value form) / "
+                 "__contains__ / move_forward / dump_cache / create_cache_node; get and set checked to lie entirely inside `with self.lock:`"),
+}]
+
+# generated (DDGen.LfuGen) vs hand-written (LfuHeapModel) get / set, evaluated inside Coq: full heap equality
+# (every object, reachable or not, the dict, freq_link_head, counters) and the output after every step
+TIE_DIFF_V = r'''From Coq Require Import List ZArith NArith Bool Arith String.
+Import ListNotations.
+From DD Require Import Base.Sx Lfu.LfuModel Lfu.LfuHeapModel.
+From DDGen Require Import LfuGen.
+Notation heapZ := (heap Z) (only parsing).
+Notation opZ := (op Z) (only parsing).
+Definition cnode_eqb (a b : cnode Z) : bool :=
+  Z.eqb (ckey a) (ckey b) && Z.eqb (ccont a) (ccont b) && oid_eqb (cfn a) (cfn b) && oid_eqb (cpre a) (cpre b) && oid_eqb (cnxt a) (cnxt b).
+Definition fnode_eqb (a b : fnode) : bool :=
+  Nat.eqb (ffreq a) (ffreq b) && oid_eqb (fpre a) (fpre b) && oid_eqb (fnxt a) (fnxt b) && oid_eqb (fhead a) (fhead b) && oid_eqb (ftail a) (ftail b).
+Fixpoint list_eqb {A} (e : A -> A -> bool) (l1 l2 : list A) : bool :=
+  match l1, l2 with
+  | [], [] => true
+  | x :: r1, y :: r2 => e x y && list_eqb e r1 r2
+  | _, _ => false
+  end.
+Definition heap_eqb (a b : heapZ) : bool :=
+  list_eqb (fun x y => Nat.eqb (fst x) (fst y) && cnode_eqb (snd x) (snd y)) (cns a) (cns b) &&
+  list_eqb (fun x y => Nat.eqb (fst x) (fst y) && fnode_eqb (snd x) (snd y)) (fns a) (fns b) &&
+  list_eqb (fun x y => Z.eqb (fst x) (fst y) && Nat.eqb (snd x) (snd y)) (dict a) (dict b) &&
+  oid_eqb (hhead a) (hhead b) && Nat.eqb (hcap a) (hcap b) && Nat.eqb (nextc a) (nextc b) && Nat.eqb (nextf a) (nextf b).
+Definition out_eqb (a b : option Z) : bool :=
+  match a, b with Some x, Some y => Z.eqb x y | None, None => true | _, _ => false end.
+Definition res_eqb (a b : option (heapZ * option Z)) : bool :=
+  match a, b with
+  | Some (h1, o1), Some (h2, o2) => heap_eqb h1 h2 && out_eqb o1 o2
+  | None, None => true
+  | _, _ => false
+  end.
+Definition g_step (h : heapZ) (o : opZ) : option (heapZ * option Z) :=
+  match o with
+  | OGet k => g_get h k
+  | OSet k v => match g_set h k v with Some h1 => Some (h1, None) | None => None end
+  end.
+Definition start (c : nat) : option heapZ := g_LFUCache_init Z c.
+Definition start_ok (c : nat) : bool :=
+  match start c with Some h => heap_eqb h (hempty c) | None => false end.
+
+(* bounded-exhaustive: depth-first over all sequences of exactly <= d more operations from a heap on which both
+   models agreed so far; the value written by the t-th operation is t; returns the first differing sequence *)
+Fixpoint try_ops (ops : list opZ) (k : opZ -> option (list opZ)) : option (list opZ) :=
+  match ops with
+  | [] => None
+  | o :: r => match k o with Some p => Some p | None => try_ops r k end
+  end.
+Definition alphabet (nkeys : nat) (t : Z) : list opZ :=
+  flat_map (fun k => let kz := Z.of_nat k in [OGet kz; OSet kz t]) (seq 0 nkeys).
+Fixpoint diff (nkeys d : nat) (h : heapZ) (t : Z) (path : list opZ) : option (list opZ) :=
+  match d with
+  | O => None
+  | S d' =>
+      try_ops (alphabet nkeys t) (fun o =>
+        let a := hstep h o in
+        if res_eqb a (g_step h o) then
+          match a with Some (h1, _) => diff nkeys d' h1 (t + 1)%Z (o :: path) | None => None end
+        else Some (rev (o :: path)))
+  end.
+(* iterative deepening: a shortest differing sequence *)
+Fixpoint deepen (nkeys c : nat) (ds : list nat) : option (list opZ) :=
+  match ds with
+  | [] => None
+  | d :: r => match diff nkeys d (hempty c) 1%Z [] with Some p => Some p | None => deepen nkeys c r end
+  end.
+(* a given trace: index of the first step at which the two models differ *)
+Fixpoint first_diff (h : heapZ) (ops : list opZ) (n : nat) : option nat :=
+  match ops with
+  | [] => None
+  | o :: r =>
+      let a := hstep h o in
+      if res_eqb a (g_step h o) then
+        match a with Some (h1, _) => first_diff h1 r (S n) | None => None end
+      else Some n
+  end.
+Fixpoint first_trace (ts : list (nat * list opZ)) (i : nat) : option (nat * nat) :=
+  match ts with
+  | [] => None
+  | (c, ops) :: r => match first_diff (hempty c) ops 0 with Some n => Some (i, n) | None => first_trace r (S i) end
+  end.
+Local Open Scope string_scope.
+Definition show_op (o : opZ) : string :=
+  match o with OGet k => "g" ++ show_Z k | OSet k v => "s" ++ show_Z k ++ ":" ++ show_Z v end.
+Fixpoint show_ops (l : list opZ) : string :=
+  match l with [] => "" | o :: r => " " ++ show_op o ++ show_ops r end.
+Definition show_res (tag : string) (r : option (list opZ)) : string :=
+  tag ++ match r with None => " none" | Some p => " ops" ++ show_ops p end ++ nl.
+'''
+
+
+def _tie_coq(ctx, name, body, timeout=1500):
+    """compile one differencing file against the generated module of THIS run; returns the text between BEGIN and END"""
+    import os
+    import re
+    gen_dir = os.path.join(ctx.scratch, "srctie")
+    fn = os.path.join(gen_dir, "tie_%s.v" % name)
+    with open(fn, "w") as f:
+        f.write(TIE_DIFF_V + body)
+    rc, out = core.sh(["coqc", "-Q", core.THEORIES, "DD", "-Q", gen_dir, "DDGen", fn], timeout=timeout, cwd=gen_dir)
+    m = re.search(r'"BEGIN\n(.*)END"', out, re.S)
+    if rc != 0 or not m:
+        return None, out[-800:]
+    return m.group(1).replace('""', '"'), None
+
+
+def _parse_ops(words):
+    ops = []
+    for w in words:
+        if w[0] == "g":
+            ops.append(("get", int(w[1:]), 0))
+        else:
+            k, v = w[1:].split(":")
+            ops.append(("set", int(k), int(v)))
+    return ops
+
+
+def tie_differencing(ctx):
+    """generated vs hand-written heap model inside Coq: bounded-exhaustive (3 keys, length <= 7 and 4 keys, length <= 5,
+    capacities 1..3, shortest first) and random traces; returns (list of (capacity, ops) on which they differ, report)"""
+    import concurrent.futures as cf
+    report = {"compared": "g_LFUCache_init / g_get / g_set of DDGen.LfuGen against hempty / hget / hset of LfuHeapModel.v inside Coq "
+                          "(vm_compute): output and the FULL heap (all objects, dict, freq_link_head, counters) after every step"}
+    ctx.ensure_built("From DD Require Import Lfu.LfuModel Lfu.LfuHeapModel.")
+    jobs = []
+    for cap in (1, 2, 3):
+        jobs.append(("ex3_c%d" % cap, cap, None,
+                     'Eval vm_compute in ("BEGIN" ++ nl ++ (if start_ok %d then "" else "init-differs" ++ nl) ++ '
+                     'show_res "E" (deepen 3 %d [1;2;3;4;5;6;7]%%nat) ++ "END").\n' % (cap, cap)))
+        jobs.append(("ex4_c%d" % cap, cap, None,
+                     'Eval vm_compute in ("BEGIN" ++ nl ++ show_res "E" (deepen 4 %d [5]%%nat) ++ "END").\n' % cap))
+    rng = random.Random(ctx.seed + 18)
+    traces = []
+    for _ in range(400):
+        cap, ops = gen_random(rng, 60)
+        traces.append((min(cap, 4) if rng.random() < 0.5 else cap, ops))
+    for j in range(0, len(traces), 100):
+        chunk = traces[j:j + 100]
+        body = ("Local Open Scope Z_scope.\nDefinition traces : list (nat * list opZ) := [\n" +
+                ";\n".join("(%d%%nat, %s)" % (c, coq_ops(o)) for c, o in chunk) + "].\n" +
+                'Eval vm_compute in ("BEGIN" ++ nl ++ match first_trace traces 0 with None => "R none" '
+                '| Some (i, n) => "R " ++ show_nat i ++ " " ++ show_nat n end ++ nl ++ "END")%string.\n')
+        jobs.append(("rnd_%d" % j, None, chunk, body))
+
+    def one(job):
+        return job, _tie_coq(ctx, job[0], job[3])
+    with cf.ThreadPoolExecutor(core.NCPU) as ex:
+        res = list(ex.map(one, jobs))
+    found, errors = [], []
+    for (nm, cap, chunk, _b), (txt, err) in res:
+        if txt is None:
+            errors.append({"job": nm, "error": err})
+            continue
+        for line in txt.splitlines():
+            w = line.split()
+            if not w:
+                continue
+            if w[0] == "init-differs":
+                report["constructor_differs_at_capacity"] = cap
+            elif w[0] == "E" and w[1] == "ops":
+                found.append((cap, _parse_ops(w[2:]), nm))
+            elif w[0] == "R" and w[1] != "none":
+                c, ops = chunk[int(w[1])]
+                found.append((c, list(ops[:int(w[2]) + 1]), nm))
+    found.sort(key=lambda x: (len(x[1]), x[0]))
+    report["searched"] = {"exhaustive": "all get/set sequences over 3 keys of length <= 7 and over 4 keys of length <= 5, capacity 1..3 (value of the t-th op = t), iterative deepening",
+                          "random": "%d traces of length <= 60 (the generator of the random streams)" % len(traces),
+                          "coq_jobs": len(jobs), "coq_job_errors": errors[:3]}
+    report["differing_sequences"] = [{"capacity": c, "ops": o, "job": nm} for c, o, nm in found[:6]]
+    return [(c, o) for c, o, _ in found], report
+
+
+def judge_sequence(ctx, cap, ops, origin):
+    """one concrete sequence through the property's ordinary machinery: direct oracle (reference LFU + structural
+    consistency) -> ctx.fail; correspondence of the hand-written models with the implementation (outputs, walked
+    structure, per-step pointer-graph hashes, final pointer graph) -> correspondence break on a mismatch"""
+    ops = [tuple(o) for o in ops]
+    h, outs, st, err, (ev, hit) = run_impl(cap, ops)
+    ctx.seen(("tie", cap, tuple(ops)), nontrivial=True)
+    ctx.count("source_tie:witness_sequences")
+    case = {"capacity": cap, "ops": ops, "found_by": origin}
+    if err:
+        ctx.fail(dict(case, error=err), "LFUCache deviates from a bounded LFU map: " + err)
+    cases = []
+    if len(run_impl.gh) == len(ops):
+        cases.append(("heap_trace_sx %d %s" % (cap, coq_ops(ops)),
+                      [list(run_impl.gh), [("Some", o) if o is not None else None for o in outs], list(run_impl.graph)],
+                      dict(case, what="pointer graph of the real objects vs hand-written heap model")))
+        cases.append(("SL (firstn 2 (match trace_sx %d %s with SL l => l | x => [x] end))" % (cap, coq_ops(ops)),
+                      [[("Some", o) if o is not None else None for o in outs], [[f, [[k, v] for k, v in items]] for f, items in st]],
+                      dict(case, what="outputs and walked structure vs bucket-list model")))
+    bad = ctx.coq_cases("lfu_tie_witness", "From DD Require Import Lfu.LfuModel Lfu.LfuShow Lfu.LfuHeapModel Lfu.LfuHeapShow.\nLocal Open Scope Z_scope.",
+                        cases, shard=20, label="source_tie_witness_sequences")
+    return {"capacity": cap, "ops": ops, "oracle_error": err, "correspondence_mismatches": len(bad or [])}
+
+
+def on_source_tie_break(ctx, name, rec):
+    """The model regenerated from the current lfucache.py is no longer proved equal to LfuHeapModel.v (or the translator
+    rejected the source).  Search for a concrete operation sequence on which the two models differ and judge it like any
+    generated case; whatever the outcome, run() escalates the streams over the fragment to thorough size."""
+    import os
+    out = {"status": rec.get("status")}
+    if not os.path.exists(os.path.join(ctx.scratch, "srctie", "LfuGen.vo")):
+        out["searched"] = ("no generated model to evaluate (%s): nothing compared inside Coq; the exhaustive / random / pointer-graph "
+                           "streams run at thorough size instead" % rec.get("status"))
+        return out
+    found, report = tie_differencing(ctx)
+    out.update(report)
+    if not found:
+        out["result"] = ("the generated and the hand-written model agree on every sequence searched (the proof broke on a syntactic "
+                         "change or on states no get/set sequence reaches); streams escalated to thorough size")
+        return out
+    out["judged"] = [judge_sequence(ctx, c, o, "source-tie differencing: generated model (current lfucache.py) vs LfuHeapModel.v")
+                     for c, o in found[:4]]
+    if not any(j["oracle_error"] or j["correspondence_mismatches"] for j in out["judged"]):
+        out["result"] = ("the models differ on these sequences but the implementation shows no difference in outputs, linked structure "
+                         "or reachable pointer graph (e.g. a difference confined to unreachable objects)")
+    return out
+
+
 ALL_MODEL_FILES = ("From DD Require Import Lfu.LfuModel Lfu.LfuShow Lfu.LfuHeapModel Lfu.LfuHeapShow Lfu.LfuRtModel Lfu.LfuRtShow "
                    "Lfu.LfuAuxModel Lfu.LfuAuxShow Lfu.LfuConcModel Lfu.LfuConcShow Lfu.LfuConcGModel Lfu.LfuConcGShow.")
 
 
 def run(ctx):
     ctx.ensure_built(ALL_MODEL_FILES)       # one make for every model file the streams import
-    exhaustive(ctx, 3, 7 if ctx.thorough else 6)
-    random_traces(ctx, 1500 if ctx.thorough else 220, 200)
-    heap_traces(ctx, 800 if ctx.thorough else 120, 200 if ctx.thorough else 80)
+    # a broken source tie (the model translated from the current lfucache.py is not proved equal to LfuHeapModel.v):
+    # the streams that exercise the translated fragment run at thorough size even in the quick tier
+    big = ctx.thorough or ctx.tie_broken("lfucache")
+    if big and not ctx.thorough:
+        ctx.note("escalated_by_source_tie", "exhaustive / random / pointer-graph streams at thorough size")
+    exhaustive(ctx, 3, 7 if big else 6)
+    random_traces(ctx, 1500 if big else 220, 200)
+    heap_traces(ctx, 800 if big else 120, 200 if big else 80)
     rt_traces(ctx, 1000 if ctx.thorough else 150, 60)
     aux_observers(ctx, 400 if ctx.thorough else 50, 40)
     nonint_keys(ctx, 600 if ctx.thorough else 80, 60)
